@@ -89,7 +89,13 @@ def run(name, tier="quick", props=None):
     d = f"/dev/shm/evo-seed-{os.getpid()}"
     try:
         export_repo(d)
-        subprocess.run(["git", "apply", "--whitespace=nowarn", os.path.join(dst, "patch.diff")], cwd=d, check=True)
+        r = subprocess.run(["git", "apply", "--whitespace=nowarn", os.path.join(dst, "patch.diff")], cwd=d, capture_output=True, text=True)
+        if r.returncode != 0:
+            # written against an earlier /repo HEAD: let patch(1) place the hunks with some fuzz
+            r2 = subprocess.run("patch -p1 -F 3 --no-backup-if-mismatch < " + os.path.join(dst, "patch.diff"), shell=True, cwd=d, capture_output=True, text=True)
+            if r2.returncode != 0:
+                raise SystemExit(f"{name}: patch.diff applies neither with git apply nor with patch -F3:\n{r.stderr}\n{r2.stdout}")
+            meta["applied_with_fuzz_at_head"] = True
         for prop in (props or [meta["property"]]):
             t0 = time.time()
             cmd = ["/venv/bin/python", os.path.join(VERIF, "bin/check"), prop, "--tier", tier, "--no-selftest"]
